@@ -18,10 +18,15 @@ def rand_seq(rng, L, alpha):
 
 
 def mutate(rng, s, alpha, psub=0.1, pindel=0.03, maxindel=1):
+    """substitutions plus length-balanced insertions / deletions of 1..maxindel residues"""
     o = []
-    for ch in s:
+    i = 0
+    n = len(s)
+    while i < n:
+        ch = s[i]
         r = rng.random()
         if r < pindel:
+            i += rng.randint(1, maxindel)  # deletion
             continue
         if r < 2 * pindel:
             for _ in range(rng.randint(1, maxindel)):
@@ -30,6 +35,7 @@ def mutate(rng, s, alpha, psub=0.1, pindel=0.03, maxindel=1):
             o.append(rng.choice(alpha))
         else:
             o.append(ch)
+        i += 1
     return "".join(o) or rng.choice(alpha)
 
 
